@@ -29,7 +29,7 @@
 static void *fp_live[FP_MAX]; static void *fp_bt[FP_MAX][FP_BT]; static unsigned long fp_idx[FP_MAX];
 static unsigned long fp_count, fp_nlive, fp_failed; static unsigned long fp_arm[8]; static int fp_narm;
 static size_t fp_slot(void *p) { size_t i = ((size_t)p >> 4) * 0x9E3779B97F4A7C15ull >> 44 & (FP_MAX - 1); while (fp_live[i] && fp_live[i] != p) i = (i + 1) & (FP_MAX - 1); return i; }
-static int fp_should_fail(void) { int i; fp_count++; for (i = 0; i < fp_narm; i++) if (fp_arm[i] == fp_count) { fp_failed++; return 1; } return 0; }
+static int fp_should_fail(void) { int i; fp_count++; for (i = 0; i < fp_narm; i++) if (fp_arm[i] == fp_count) { fp_failed++; if (getenv("KX_FPTRACE")) { void *bt[16]; int n = backtrace(bt, 16); fprintf(stderr, "FPTRACE allocation %lu fails at:\n", fp_count); backtrace_symbols_fd(bt, n, 2); } return 1; } return 0; }
 static void fp_add(void *p) { if (p) { size_t i = fp_slot(p); void *bt[FP_BT + 2]; int n = backtrace(bt, FP_BT + 2), k; fp_live[i] = p; fp_idx[i] = fp_count; fp_nlive++;
 	for (k = 0; k < FP_BT; k++) fp_bt[i][k] = k + 2 < n ? bt[k + 2] : NULL; } }
 void *kxsdk_malloc(size_t n) { void *p; if (fp_should_fail()) return NULL; p = malloc(n); fp_add(p); return p; }
